@@ -96,29 +96,34 @@ def make_case(prop, verif_seed, tier, index):
 
 
 def _run_chunk(verif_seed, tier, start, end):
+    """Runs cases [start, end); returns a compact summary: counters are merged here, only runs that did not end 'ok'
+    (and the first three cases, as samples) travel back in full."""
     prop = _PROP
     faulthandler.enable()
-    out = []
+    agg, runs, bad, samples = {}, [], [], []
     for i in range(start, end):
         faulthandler.dump_traceback_later(prop.timeout_s * 3 + 30, exit=True)
         try:
             case = make_case(prop, verif_seed, tier, i)
         except Exception as e:
             import traceback
-            out.append({'index': i, 'status': 'harness_error', 'violation': None, 'stats': {},
+            bad.append({'index': i, 'status': 'harness_error', 'violation': None, 'stats': {},
                         'digest': None, 'note': 'generator: ' + traceback.format_exc()[-2000:]})
+            runs.append((i, 'harness_error', None, False))
             continue
         r = run_guarded(prop.run, case, prop.timeout_s, prop.timeout_clause)
         r['index'] = i
+        _merge(agg, r['stats'])
         if r['status'] != 'ok':
             r['case'] = case
+            bad.append(r)
+            runs.append((i, r['status'], None, False))
         else:
-            r['nontrivial'] = bool(prop.nontrivial(r['stats']))
-            if i < 3 and tier is not None:
-                r['case'] = case
-        out.append(r)
+            runs.append((i, 'ok', r['digest'], bool(prop.nontrivial(r['stats']))))
+            if i < 3:
+                samples.append((i, case))
     faulthandler.cancel_dump_traceback_later()
-    return out
+    return {'agg': agg, 'runs': runs, 'bad': bad, 'samples': samples}
 
 
 def _merge(agg, stats):
@@ -242,16 +247,15 @@ def run_check(prop, tier, verif_seed, n_runs=None, workers=None, write_evidence=
     workers = workers or int(os.environ.get('SIMV_WORKERS', '0')) or min(16, os.cpu_count() or 1)
     chunk = max(1, min(250, n // (workers * 4) or 1))
     tasks = [(s, min(n, s + chunk)) for s in range(0, n, chunk)]
-    results = [None] * n
     harness_errors = []
     try:
         ctx = mp.get_context('fork')
         with cf.ProcessPoolExecutor(max_workers=workers, mp_context=ctx) as pool:
             futs = {pool.submit(_run_chunk, verif_seed, tier, s, e): (s, e) for s, e in tasks}
+            chunks = {}
             for fut in cf.as_completed(futs):
-                for r in fut.result():
-                    results[r['index']] = r
-            # ---- reduce in index order
+                chunks[futs[fut][0]] = fut.result()
+            # ---- reduce in index order (so the outcome does not depend on the worker count)
             agg = {}
             counts = {'ok': 0, 'violation': 0, 'aborted': 0, 'timeout': 0, 'harness_error': 0}
             digests = set()
@@ -259,23 +263,27 @@ def run_check(prop, tier, verif_seed, n_runs=None, workers=None, write_evidence=
             samples = []
             viols = []
             aborted_seeds = []
-            for r in results:
-                counts[r['status']] += 1
-                _merge(agg, r['stats'])
-                if r['status'] == 'ok':
-                    digests.add(r['digest'])
-                    if r.get('nontrivial'):
-                        nontrivial_digests.add(r['digest'])
-                    if 'case' in r and len(samples) < 3:
-                        samples.append(prop.sample_view(r['case']))
-                elif r['status'] == 'violation':
-                    viols.append(r)
-                elif r['status'] == 'aborted':
-                    aborted_seeds.append(r['case'].get('_seed'))
-                    if len(harness_errors) < 0:
-                        pass
-                else:
-                    harness_errors.append(f"index {r['index']}: {r['status']}: {(r.get('note') or '')[-1500:]}")
+            results = []
+            for start in sorted(chunks):
+                ch = chunks[start]
+                _merge(agg, ch['agg'])
+                for i, status, dg, nt in ch['runs']:
+                    counts[status] += 1
+                    if status == 'ok':
+                        digests.add(dg)
+                        if nt:
+                            nontrivial_digests.add(dg)
+                for i, case in ch['samples']:
+                    if len(samples) < 3:
+                        samples.append(prop.sample_view(case))
+                for r in ch['bad']:
+                    results.append(r)
+                    if r['status'] == 'violation':
+                        viols.append(r)
+                    elif r['status'] == 'aborted':
+                        aborted_seeds.append(r['case'].get('_seed'))
+                    else:
+                        harness_errors.append(f"index {r['index']}: {r['status']}: {(r.get('note') or '')[-1500:]}")
 
             # ---- violations: known findings, minimise, replay
             known = load_known()
